@@ -451,20 +451,30 @@ Proof.
 Qed.
 
 (* ================= pump_output_stream ================= *)
-Lemma pump_fold plimit chunks : forall w fs,
-  fold_left (pump_step plimit) chunks (w, fs)
-  = (fst (lw_run w chunks),
-     fs ++ map (fun ci => {| df_preview := fst (fst (truncate_utf8 (fst ci) (N.min plimit OUTPUT_EVENT_MAX_BYTES)));
-                             df_info := snd ci |})
-               (combine chunks (snd (lw_run w chunks)))).
+Lemma pump_step_proj plimit st c :
+  ps_w (pump_step plimit st c) = fst (lw_append (ps_w st) c)
+  /\ map df_info (ps_frames (pump_step plimit st c))
+     = map df_info (ps_frames st) ++ [snd (lw_append (ps_w st) c)].
 Proof.
-  induction chunks as [|c r IH]; intros w fs; cbn [fold_left lw_run fst snd combine map].
-  - rewrite app_nil_r. reflexivity.
-  - unfold pump_step at 2. cbn [fst snd].
-    destruct (lw_append w c) as [w1 i] eqn:E1.
-    destruct (truncate_utf8 c (N.min plimit OUTPUT_EVENT_MAX_BYTES)) as [[pv tr] used] eqn:E2.
-    rewrite IH. destruct (lw_run w1 r) as [w2 is2] eqn:E3. cbn [fst snd combine map].
-    rewrite E2. cbn [fst]. rewrite <- app_assoc. reflexivity.
+  unfold pump_step. destruct (lw_append (ps_w st) c) as [w1 i].
+  destruct (pump_text (ps_carry st) c) as [text carry'].
+  destruct (truncate_utf8 text (N.min plimit OUTPUT_EVENT_MAX_BYTES)) as [[pv tr] used].
+  cbn [ps_w ps_frames fst snd]. rewrite map_app. split; reflexivity.
+Qed.
+
+Lemma pump_fold plimit chunks : forall st,
+  ps_w (fold_left (pump_step plimit) chunks st) = fst (lw_run (ps_w st) chunks)
+  /\ map df_info (ps_frames (fold_left (pump_step plimit) chunks st))
+     = map df_info (ps_frames st) ++ snd (lw_run (ps_w st) chunks).
+Proof.
+  induction chunks as [|c r IH]; intros st; cbn [fold_left lw_run].
+  - cbn [fst snd]. rewrite app_nil_r. split; reflexivity.
+  - destruct (IH (pump_step plimit st c)) as [IH1 IH2].
+    destruct (pump_step_proj plimit st c) as [P1 P2].
+    rewrite IH1, IH2, P1, P2.
+    destruct (lw_append (ps_w st) c) as [w1 i]. cbn [fst snd].
+    destruct (lw_run w1 r) as [w2 is2]. cbn [fst snd].
+    rewrite <- app_assoc. split; reflexivity.
 Qed.
 
 (* the pump stores what the log writer stores, and its frames carry exactly the append ranges, one per
@@ -475,26 +485,14 @@ Theorem pump_frames_tile : forall (cap plimit : N) (chunks : list bytes),
   /\ map df_info fs = snd (lw_run (lw_new cap) chunks)
   /\ consecutive 0 (map range_of (map df_info fs))
   /\ tiles 0 (map range_of (map df_info fs)) = nlen (lw_file w)
-  /\ ranges_hold (lw_file w) (map df_info fs) chunks
-  /\ Forall2 (fun f c => df_preview f = fst (fst (truncate_utf8 c (N.min plimit OUTPUT_EVENT_MAX_BYTES)))) fs chunks.
+  /\ ranges_hold (lw_file w) (map df_info fs) chunks.
 Proof.
-  intros cap plimit chunks. unfold pump. rewrite pump_fold. cbn [app].
+  intros cap plimit chunks. unfold pump, pump_run.
+  destruct (pump_fold plimit chunks {| ps_w := lw_new cap; ps_carry := []; ps_frames := [] |}) as [H1 H2].
+  cbn [ps_w ps_frames map app] in H1, H2. rewrite H1, H2.
   pose proof (log_ranges_tile cap chunks) as HT.
-  pose proof (lw_run_consecutive chunks (lw_new cap)) as HC.
-  destruct (lw_run (lw_new cap) chunks) as [w is_] eqn:E. cbn [fst snd].
-  destruct HC as (_ & _ & Hlen & _).
-  assert (Hmap : map df_info
-     (map (fun ci => {| df_preview := fst (fst (truncate_utf8 (fst ci) (N.min plimit OUTPUT_EVENT_MAX_BYTES)));
-                        df_info := snd ci |}) (combine chunks is_)) = is_).
-  { rewrite map_map. cbn [df_info]. clear -Hlen. revert is_ Hlen.
-    induction chunks as [|c r IH]; intros [|i is_] Hl; cbn [combine map length] in *; try discriminate; try reflexivity.
-    f_equal. apply IH. lia. }
-  rewrite Hmap. destruct HT as (H1 & H2 & H3).
-  repeat (split; [assumption || reflexivity|]).
-  clear -Hlen. revert is_ Hlen.
-  induction chunks as [|c r IH]; intros [|i is_] Hl; cbn [combine map length] in *; try discriminate; constructor.
-  - reflexivity.
-  - apply IH. lia.
+  destruct (lw_run (lw_new cap) chunks) as [w is_]. cbn [fst snd].
+  destruct HT as (T1 & T2 & T3). repeat split; assumption.
 Qed.
 
 (* S17, the code before the repair: with preview limit 0 no frame references the stored bytes *)
@@ -811,3 +809,95 @@ Definition s19_out : bytes := [195; 169; 195; 169; 195; 169].
 Lemma shell_preview_example :
   utf8_ok s19_out = true /\ shell_preview (take 3 s19_out) (3 <? nlen s19_out) = [195; 169].
 Proof. vm_compute. split; reflexivity. Qed.
+
+(* ================= delta-frame previews (S20 repaired) ================= *)
+Lemma incomplete_tail_pend bs : incomplete_tail bs = nlen (pend_acc (ufinal UIdle bs)).
+Proof. unfold incomplete_tail. destruct (ufinal UIdle bs); reflexivity. Qed.
+
+(* what the previews emitted so far and the carried bytes are, for valid UTF-8 output *)
+Definition pump_inv (content : bytes) (st : pst) : Prop :=
+  concat (map df_preview (ps_frames st)) ++ ps_carry st = content
+  /\ ufinal UIdle (concat (map df_preview (ps_frames st))) = UIdle
+  /\ ps_carry st = pend_acc (ufinal UIdle content).
+
+Lemma pump_step_exact plimit st c content rest :
+  pump_inv content st -> steps_ok UIdle (content ++ c ++ rest) = true ->
+  nlen c + 3 <= N.min plimit OUTPUT_EVENT_MAX_BYTES ->
+  pump_inv (content ++ c) (pump_step plimit st c).
+Proof.
+  intros (Hcat & Hidle & Hcarry) Hok Hsmall.
+  set (P := concat (map df_preview (ps_frames st))) in *.
+  set (text := ps_carry st ++ c).
+  assert (Hok' : steps_ok UIdle (text ++ rest) = true).
+  { rewrite <- Hcat in Hok. rewrite <- !app_assoc in Hok. rewrite steps_ok_app, Hidle in Hok.
+    apply andb_true_iff in Hok as [_ Hok]. subst text. rewrite <- app_assoc. exact Hok. }
+  destruct (valid_prefix_trim text rest Hok') as (Hv & Hfin & Htext & Hnpre).
+  set (pre := take (nlen text - incomplete_tail text) text) in *.
+  assert (Hc3 : nlen (ps_carry st) <= 3).
+  { rewrite Hcarry, <- incomplete_tail_pend. apply incomplete_tail_le3. }
+  assert (Hlen : nlen pre <= N.min plimit OUTPUT_EVENT_MAX_BYTES).
+  { rewrite Hnpre. subst text. rewrite nlen_app. lia. }
+  unfold pump_step. destruct (lw_append (ps_w st) c) as [w1 i].
+  unfold pump_text. fold text. fold pre.
+  assert (Htr : truncate_utf8 pre (N.min plimit OUTPUT_EVENT_MAX_BYTES) = (pre, false, nlen pre)).
+  { unfold truncate_utf8. destruct (N.leb_spec (nlen pre) (N.min plimit OUTPUT_EVENT_MAX_BYTES)); [|lia].
+    rewrite (lossy_valid pre Hv). reflexivity. }
+  rewrite Htr. unfold pump_inv. cbn [ps_frames ps_carry].
+  rewrite map_app, concat_app. cbn [map concat df_preview]. rewrite app_nil_r. fold P.
+  assert (Hdrop : drop (nlen text - incomplete_tail text) text = pend_acc (ufinal UIdle text)).
+  { apply (app_inv_head pre). unfold pre at 1. rewrite take_drop. exact Htext. }
+  split; [|split].
+  - rewrite <- app_assoc. unfold pre. rewrite take_drop. subst text. rewrite app_assoc, Hcat. reflexivity.
+  - rewrite ufinal_app, Hidle. exact Hfin.
+  - rewrite Hdrop. rewrite <- Hcat, <- app_assoc. fold text. rewrite ufinal_app, Hidle. reflexivity.
+Qed.
+
+Lemma pump_fold_exact plimit chunks : forall st content rest,
+  pump_inv content st -> steps_ok UIdle (content ++ concat chunks ++ rest) = true ->
+  Forall (fun c => nlen c + 3 <= N.min plimit OUTPUT_EVENT_MAX_BYTES) chunks ->
+  pump_inv (content ++ concat chunks) (fold_left (pump_step plimit) chunks st).
+Proof.
+  induction chunks as [|c r IH]; intros st content rest Hinv Hok Hall; cbn [fold_left concat].
+  - rewrite app_nil_r. exact Hinv.
+  - inversion Hall as [|c' r' Hc Hr]; subst. rewrite app_assoc.
+    apply (IH _ _ rest).
+    + apply (pump_step_exact plimit st c content (concat r ++ rest)); [exact Hinv| |exact Hc].
+      cbn [concat] in Hok. rewrite <- app_assoc in Hok. exact Hok.
+    + cbn [concat] in Hok. rewrite <- !app_assoc in *. exact Hok.
+    + exact Hr.
+Qed.
+
+(* valid UTF-8 output, every read at least 3 bytes below the per-frame preview limit: the previews of the
+   delta frames concatenate to the output exactly, however the reads split the characters *)
+Theorem delta_previews_exact : forall (cap plimit : N) (chunks : list bytes),
+  utf8_ok (concat chunks) = true ->
+  Forall (fun c => nlen c + 3 <= N.min plimit OUTPUT_EVENT_MAX_BYTES) chunks ->
+  concat (map df_preview (snd (pump cap plimit chunks))) = concat chunks.
+Proof.
+  intros cap plimit chunks Hv Hall. unfold utf8_ok in Hv. rewrite urun_ok in Hv.
+  apply andb_true_iff in Hv as [Hs Hi].
+  unfold pump, pump_run. cbn [snd].
+  assert (H0 : pump_inv [] {| ps_w := lw_new cap; ps_carry := []; ps_frames := [] |}).
+  { unfold pump_inv. cbn. repeat split. }
+  pose proof (pump_fold_exact plimit chunks _ [] [] H0) as HI. cbn [app] in HI.
+  rewrite app_nil_r in HI. specialize (HI Hs Hall).
+  destruct HI as (Hcat & _ & Hcarry).
+  destruct (ufinal UIdle (concat chunks)); [|discriminate].
+  cbn [pend_acc] in Hcarry. rewrite Hcarry, app_nil_r in Hcat. exact Hcat.
+Qed.
+
+(* S20, the pump before the repair (every read decoded on its own): "éé" read as 1 + 3 bytes *)
+Definition s20_chunks : list bytes := [[195]; [169; 195; 169]].
+Lemma delta_previews_perchunk_refuted :
+  exists cap plimit chunks,
+    utf8_ok (concat chunks) = true
+    /\ Forall (fun c => nlen c + 3 <= N.min plimit OUTPUT_EVENT_MAX_BYTES) chunks
+    /\ concat (map df_preview (snd (pump_perchunk cap plimit chunks))) <> concat chunks.
+Proof.
+  exists 100, 64, s20_chunks. split; [reflexivity|]. split.
+  - repeat constructor; vm_compute; discriminate.
+  - vm_compute. discriminate.
+Qed.
+Example delta_previews_fixed_s20 :
+  map df_preview (snd (pump 100 64 s20_chunks)) = [[]; [195; 169; 195; 169]].
+Proof. vm_compute. reflexivity. Qed.
